@@ -567,6 +567,16 @@ func rSortComparator(id string) func(w *World, r *Report) {
 				ru.Check(good && ncmp == 1, "Sort/comparator", w.IPos(c), "Compare(a.Name, b.Name)", "option.Sort's comparator is not a plain comparison of the names (case folding, ties, extra keys): elements it treats as equal keep the order of the map range they came from")
 				continue
 			}
+			if cn == "sort.Sort" || cn == "sort.Stable" {
+				// a named slice type implementing sort.Interface: Less is the comparator, Len and Swap the obvious ones
+				n++
+				good := false
+				if mi, ok := c.Common().Args[0].(*ssa.MakeInterface); ok {
+					good = sortInterfaceByName(w, mi.X.Type())
+				}
+				ru.Check(good, "Sort/comparator", w.IPos(c), "sort.Interface with Less = Name < Name", "option.Sort sorts through a sort.Interface whose Less is not a plain comparison of the names (or whose Len / Swap are not the plain ones): elements it treats as equal keep the order of the map range they came from")
+				continue
+			}
 			if cn != "sort.Slice" && cn != "sort.SliceStable" {
 				continue
 			}
@@ -621,6 +631,109 @@ func rSortComparator(id string) func(w *World, r *Report) {
 			ru.Bad("Sort/comparator", w.Pos(fn.Pos()), "option.Sort does not sort")
 		}
 	}
+}
+
+// sortInterfaceByName: t is a named slice type of the library whose Less is exactly l[i].Name < l[j].Name, whose Len is
+// len(l) and whose Swap exchanges l[i] and l[j].
+func sortInterfaceByName(w *World, t types.Type) bool {
+	named, ok := t.(*types.Named)
+	if !ok {
+		return false
+	}
+	method := func(name string) *ssa.Function {
+		for _, fn := range w.Funcs {
+			if fn.Name() == name && fn.Signature.Recv() != nil && types.Identical(fn.Signature.Recv().Type(), named) {
+				return fn
+			}
+		}
+		return nil
+	}
+	less, ln, swap := method("Less"), method("Len"), method("Swap")
+	if less == nil || ln == nil || swap == nil || len(less.Blocks) != 1 || len(ln.Blocks) != 1 || len(swap.Blocks) != 1 || len(less.Params) != 3 || len(swap.Params) != 3 {
+		return false
+	}
+	elemAt := func(v ssa.Value, fn *ssa.Function, idx int) bool {
+		// v is l[idx] (the element pointer loaded from the slot)
+		u, ok := v.(*ssa.UnOp)
+		if !ok || u.Op != token.MUL {
+			return false
+		}
+		ia, ok := u.X.(*ssa.IndexAddr)
+		return ok && ia.X == ssa.Value(fn.Params[0]) && ia.Index == ssa.Value(fn.Params[idx])
+	}
+	cmp, good := 0, true
+	eachInstr(less, func(in ssa.Instruction) {
+		switch x := in.(type) {
+		case *ssa.BinOp:
+			a, n1 := loadOfFieldNamed(x.X, "Name")
+			b, n2 := loadOfFieldNamed(x.Y, "Name")
+			if x.Op == token.LSS && n1 && n2 && elemAt(a, less, 1) && elemAt(b, less, 2) {
+				cmp++
+			} else {
+				good = false
+			}
+		case ssa.CallInstruction:
+			good = false
+		}
+	})
+	if !good || cmp != 1 {
+		return false
+	}
+	// Len: return len(l)
+	okLen := false
+	eachInstr(ln, func(in ssa.Instruction) {
+		if ret, ok := in.(*ssa.Return); ok && len(ret.Results) == 1 {
+			if c, ok := lenOf(ret.Results[0]); ok && c == ssa.Value(ln.Params[0]) {
+				okLen = true
+			}
+		}
+	})
+	// Swap: two stores, l[i] <- old l[j] and l[j] <- old l[i]
+	var stores []*ssa.Store
+	eachInstr(swap, func(in ssa.Instruction) {
+		if st, ok := in.(*ssa.Store); ok {
+			stores = append(stores, st)
+		}
+	})
+	okSwap := false
+	if len(stores) == 2 {
+		slot := func(a ssa.Value) int {
+			ia, ok := a.(*ssa.IndexAddr)
+			if !ok || ia.X != ssa.Value(swap.Params[0]) {
+				return 0
+			}
+			switch ia.Index {
+			case ssa.Value(swap.Params[1]):
+				return 1
+			case ssa.Value(swap.Params[2]):
+				return 2
+			}
+			return 0
+		}
+		from := func(v ssa.Value) int {
+			u, ok := v.(*ssa.UnOp)
+			if !ok || u.Op != token.MUL {
+				return 0
+			}
+			return slot(u.X)
+		}
+		a, b := stores[0], stores[1]
+		// both loads precede both stores (tuple assignment)
+		pos := map[ssa.Instruction]int{}
+		for i, in := range swap.Blocks[0].Instrs {
+			pos[in] = i
+		}
+		loadsFirst := true
+		for _, st := range stores {
+			if u, ok := st.Val.(*ssa.UnOp); ok {
+				if pos[u] > pos[a] || pos[u] > pos[b] {
+					loadsFirst = false
+				}
+			}
+		}
+		okSwap = loadsFirst && slot(a.Addr) != 0 && slot(b.Addr) != 0 && slot(a.Addr) != slot(b.Addr) && from(a.Val) == slot(b.Addr) && from(b.Val) == slot(a.Addr)
+	}
+	return okLen && okSwap
 }
 
 // samePath: the same value, or loads of the same chain of fields from the same root value (go/ssa does not merge
@@ -702,9 +815,15 @@ var stateWriters = []stateWriter{
 	{"option", "Option", "Verbatim", map[string]string{"getoptions.newUnknownCLIOption": "param", "getoptions.parseCLIArgs": "any"},
 		map[string]string{"C03": "an unknown option is passed through as the token it came from", "C08": "an unknown option is reported as the token it came from"}},
 	{"option", "Option", "EnvVar", map[string]string{"(*option.Option).SetEnvVar": "param"},
-		map[string]string{"C12": "the environment variable consulted is the declared one"}},
+		map[string]string{"C12": "the environment variable consulted is the declared one", "C18": "the environment variable help shows is the one that is bound, as written"}},
 	{"dag", "Graph", "maxParallel", map[string]string{"(*dag.Graph).SetMaxParallel": "param"},
 		map[string]string{"C15": "the concurrency bound is the one given to SetMaxParallel"}},
+	{"dag", "Graph", "bufferOutput", map[string]string{"(*dag.Graph).SetOutputBuffer": "true"},
+		map[string]string{"C15": "a graph given an output buffer buffers: the switch is not derived from any other setting"}},
+	{"dag", "Vertex", "status", map[string]string{"(*dag.Graph).Run": "const", "(*dag.Graph).Run$": "const", "(*dag.Graph).getNextVertex": "const", "dag.skipParents": "const"},
+		map[string]string{"C13": "a task that ran is never made runnable again: the run state of a vertex moves only inside Run (pending -> in progress -> done / skip), declarations do not touch it"}},
+	{"getoptions", "programTree", "requireOrder", map[string]string{"(*getoptions.GetOpt).SetRequireOrder": "true"},
+		map[string]string{"C09": "require-order is switched on by SetRequireOrder alone and never switched off"}},
 	{"dag", "Graph", "bufferWriter", map[string]string{"(*dag.Graph).SetOutputBuffer": "param"},
 		map[string]string{"C15": "buffered output goes to the writer given to SetOutputBuffer"}},
 	{"dag", "Vertex", "Children", map[string]string{"(*dag.Graph).TaskDependsOn": "any"},
